@@ -2,6 +2,7 @@
    are served in the order of the due list and the loop stops at the first group after which a tracked value differs
    from the reference. -/
 import WntrModel.Lemmas.Sched
+import WntrModel.Lemmas.SchedSplit
 
 namespace Wntr.Sched
 
@@ -301,17 +302,17 @@ def runTrace (cfg : Cfg) : Nat → Bool → St → List (Bool × St)
 /-- **every time up to the last accepted time lies in exactly the window `(prev, accepted]` of one pass**: for a run from
 `s` (any fuel) and any `τ` with `s.prevTime < τ ≤` final `prevTime` there is a pass entered in state `e` with
 `e.prevTime < τ ≤ (presolve e).simTime` -/
-theorem runTrace_cover {cfg : Cfg} (hR : 0 < cfg.rule) (hH : 0 < cfg.hyd) (J : St → Prop)
-    (hJ : ∀ first s, Inv cfg s → J s → J (stepOnce cfg first s).1) (τ : Int) :
-    ∀ (n : Nat) (first : Bool) (s : St) (log : List Row), Inv cfg s → J s → s.prevTime < τ →
+theorem runTrace_cover {cfg : Cfg} (hR : 0 < cfg.rule) (hH : 0 < cfg.hyd) (J : St → Prop) (F0 : St → Prop)
+    (hJ : ∀ first s, Inv cfg s → J s → (first = true → F0 s) → J (stepOnce cfg first s).1) (τ : Int) :
+    ∀ (n : Nat) (first : Bool) (s : St) (log : List Row), Inv cfg s → J s → (first = true → F0 s) → s.prevTime < τ →
       τ ≤ (runLoop cfg n first s log).1.prevTime →
       ∃ e ∈ runTrace cfg n first s, Inv cfg e.2 ∧ J e.2 ∧ e.2.prevTime < τ ∧ τ ≤ (presolve cfg e.1 e.2).simTime ∧
         (e.1 = true → e = (first, s)) := by
   intro n
   induction n with
-  | zero => intro first s log _ _ h1 h2; simp only [runLoop_zero] at h2; omega
+  | zero => intro first s log _ _ _ h1 h2; simp only [runLoop_zero] at h2; omega
   | succ n ih =>
-    intro first s log hi hj h1 h2
+    intro first s log hi hj hf h1 h2
     rw [runLoop_succ] at h2
     have hs := stepOnce_stepped hR hH first hi
     have hprev : (stepOnce cfg first s).1.prevTime = (presolve cfg first s).simTime := by rw [stepOnce_fst]
@@ -321,7 +322,7 @@ theorem runTrace_cover {cfg : Cfg} (hR : 0 < cfg.rule) (hH : 0 < cfg.hyd) (J : S
     · by_cases hstop : (stepOnce cfg first s).1.simTime > cfg.duration
       · rw [if_pos hstop] at h2; simp only at h2; omega
       · rw [if_neg hstop] at h2
-        obtain ⟨e, he, h3, h4, h5, h6, h7⟩ := ih false _ _ hs.inv (hJ first s hi hj) (by omega) h2
+        obtain ⟨e, he, h3, h4, h5, h6, h7⟩ := ih false _ _ hs.inv (hJ first s hi hj hf) (fun h => by simp at h) (by omega) h2
         refine ⟨e, ?_, h3, h4, h5, h6, ?_⟩
         · simp only [hstop, if_false]
           exact List.mem_cons_of_mem _ he
@@ -329,6 +330,32 @@ theorem runTrace_cover {cfg : Cfg} (hR : 0 < cfg.rule) (hH : 0 < cfg.hyd) (J : S
           have := h7 ht
           rw [this] at ht
           simp at ht
+
+/-- with `report_timestep = 'ALL'` every pass of the trace contributes a row carrying its accepted time -/
+theorem runTrace_rows {cfg : Cfg} (hrep : cfg.report = 0) :
+    ∀ (n : Nat) (first : Bool) (s : St) (log : List Row), ∀ e ∈ runTrace cfg n first s,
+      ∃ r ∈ (runLoop cfg n first s log).2, r.time = (presolve cfg e.1 e.2).simTime ∧ r.vals = (presolve cfg e.1 e.2).vals := by
+  intro n
+  induction n with
+  | zero => intro first s log e he; simp [runTrace] at he
+  | succ n ih =>
+    intro first s log e he
+    have hrow : (stepOnce cfg first s).2 = some ⟨(presolve cfg first s).simTime, (presolve cfg first s).vals⟩ := by
+      rw [stepOnce_snd]; simp [reportNow, hrep]
+    rw [runLoop_succ, hrow]
+    unfold runTrace at he
+    rcases List.mem_cons.1 he with rfl | he
+    · refine ⟨⟨(presolve cfg first s).simTime, (presolve cfg first s).vals⟩, ?_, rfl, rfl⟩
+      split
+      · simp
+      · have hl : log ++ (some (⟨(presolve cfg first s).simTime, (presolve cfg first s).vals⟩ : Row)).toList =
+            (log ++ (some (⟨(presolve cfg first s).simTime, (presolve cfg first s).vals⟩ : Row)).toList) ++ [] := by simp
+        rw [hl, runLoop_log]
+        simp
+    · by_cases hstop : (stepOnce cfg first s).1.simTime > cfg.duration
+      · simp [hstop] at he
+      · simp only [hstop, if_false] at he ⊢
+        exact ih false _ _ e he
 
 /-! ### tracked values keep pairwise distinct keys -/
 
